@@ -135,6 +135,39 @@ def rule_total(run):
         else: run.unknown(k2, 'laydist/closest not found', where=lm.where(lp[0]))
 
 
+def rule_atmkey(run):
+    run.rule('ATMKEY', 'block_mapping looks the column of every target block up in the column mapping; the key of the single '
+             'target atmosphere column must therefore be present for every (source, target) atmosphere-type pair with a '
+             'single target atmosphere block', floor=3)
+    prog = run.prog
+    bm, cm = prog.func('mulgrids.mulgrid.block_mapping'), prog.func('mulgrids.mulgrid.column_mapping')
+    lp = _loop_over(bm, 'geo.block_name_list')
+    if len(lp) != 1:
+        run.unknown('mulgrid.block_mapping :: atmosphere column key', 'loop not found', where=bm.where()); return
+    # is col_mapping[destcol] evaluated unconditionally at the top of the loop body?
+    uncond = any(isinstance(st, ast.Assign) and any(isinstance(x, ast.Subscript) and norm(x.value) == 'col_mapping' for x in ast.walk(st.value))
+                 for st in lp[0].body)
+    guarded = any(isinstance(x, ast.Call) and call_name(x) == 'get' and norm(x.func.value) == 'col_mapping' for x in ast.walk(lp[0]))
+    tests = [n for n in walk_no_nested(cm.node) if isinstance(n, ast.If) and
+             any(isinstance(s, ast.Assign) and isinstance(s.value, ast.Dict) and 'atmosphere_column_name' in norm(s.value) for s in n.body)]
+    if not tests:
+        run.unknown('mulgrid.column_mapping :: atmosphere column key', 'conditional initial mapping not found', where=cm.where()); return
+    for s_type in (0, 1, 2):
+        g_type = 0          # only a target with a single atmosphere block has an atmosphere column name among its block names
+        me, geo = Obj(), Obj()
+        me.attrs['atmosphere_type'] = s_type; geo.attrs['atmosphere_type'] = g_type
+        key = 'mulgrid.block_mapping :: source atmosphere type %s, target type 0' % (s_type if s_type < 2 else 'other')
+        try:
+            has_key = bool(Interp({'self': me, 'geo': geo}).expr(tests[0].test))
+        except AnalysisError as e:
+            run.unknown(key, str(e), where=cm.where(tests[0])); continue
+        if has_key or not uncond or guarded: run.ok(key, 'atmosphere column key present' if has_key else 'lookup guarded', where=bm.where(lp[0]))
+        else:
+            run.violated(key, 'column_mapping adds the target atmosphere column only when `%s`; block_mapping then evaluates col_mapping[destcol] '
+                         'for the target\'s single atmosphere block and raises KeyError: no mapping (and no transfer) can be made for this '
+                         'combination of atmosphere types' % norm(tests[0].test), where=bm.where(lp[0]))
+
+
 def rule_case(run):
     run.rule('CASE', 't2incon.transfer_from: the (target, source) atmosphere-type decision tree assigns the target '
              'atmosphere block(s) in every one of the 3x3 cases; all underground blocks are assigned from the mapping',
@@ -279,6 +312,7 @@ def rule_noalias(run):
 
 def check(run):
     run.guarded('TOTAL', rule_total)
+    run.guarded('ATMKEY', rule_atmkey)
     run.guarded('CASE', rule_case)
     run.guarded('NOALIAS', rule_noalias)
     run.guarded('PRED', lambda r: rule_pred(r, floor=10))
